@@ -20,6 +20,7 @@ def main():
     ap.add_argument("--replay")
     ap.add_argument("--setup", action="store_true")
     ap.add_argument("--selftest", action="store_true")
+    ap.add_argument("--extra", action="store_true")
     a = ap.parse_args()
     seed = int(os.environ.get("VERIF_SEED", "0") or 0)
     if a.setup:
@@ -28,6 +29,9 @@ def main():
     if a.selftest:
         import selftest
         return selftest.main()
+    if a.extra:
+        import extras
+        return extras.main()
     if not a.pid:
         ap.error("property id required")
     import framework
